@@ -241,7 +241,7 @@ def cases_line_delimiters_and_encodings():
         for name, effective in values.items():
             for spelling in (name, name.upper(), name.title(), name[:1] + name[1:].upper()):
                 cases.append({"group": "line-delimiter", "format": fmt, "props": [["Line delimiter", spelling]], "expect": "accept", "what": "line delimiter name", "attrs": {"line_delimiter": effective}})
-        for bogus in ("nl", "", "10", "\\n", "lfcr", "cr lf", "cr+lf", "newline", "all", "l f"):
+        for bogus in ("nl", "", "10", "\\n", "lfcr", "cr lf", "cr+lf", "newline", "all", "l f", "\n", "\r", "\r\n", "\n\r", "0x0a", "\\r\\n"):  # the characters themselves are not names
             cases.append({"group": "line-delimiter", "format": fmt, "props": [["Line delimiter", bogus]], "expect": "refuse", "what": "unknown line delimiter"})
         for spelling in ("none", "None", "NONE"):
             cases.append({"group": "line-delimiter", "format": fmt, "props": [["Line delimiter", spelling]], "expect": "either" if fmt == "fixed" else "refuse", "what": "line delimiter none"})
@@ -294,6 +294,15 @@ def cases_pairs():
                 cases.append({"group": "consistency", "format": fmt, "props": item + pair, "expect": "refuse" if decimal == thousands else "accept", "what": "decimal vs thousands separator",
                               "attrs": {} if decimal == thousands else {"decimal_separator": decimal, "thousands_separator": thousands}})
         cases.append({"group": "consistency", "format": fmt, "props": item + [["Thousands separator", "."]], "expect": "refuse", "what": "thousands separator equal to the default decimal separator"})
+        # the same contradiction next to every line delimiter setting, declared before, between and after the separators
+        for line in ("lf", "cr", "crlf", "any") + (("none",) if fmt == "fixed" else ()):
+            for decimal, thousands in itertools.product(".,", ".,"):
+                for position in (0, 1, 2):
+                    props = [["Decimal separator", decimal], ["Thousands separator", thousands]]
+                    props.insert(position, ["Line delimiter", line])
+                    expect = "refuse" if decimal == thousands else ("either" if line == "none" else "accept")
+                    cases.append({"group": "consistency", "format": fmt, "props": item + props, "expect": expect, "what": "decimal vs thousands separator with line delimiter " + line})
+            cases.append({"group": "consistency", "format": fmt, "props": item + [["Line delimiter", line], ["Thousands separator", "."]], "expect": "refuse", "what": "thousands separator equal to the default decimal separator with line delimiter " + line})
     return cases
 
 
